@@ -1,9 +1,14 @@
 """C13: decided by the shared cube machinery (see c03.py): instances generated for C13, evaluated on the
 real cubes (serially, and with the worker pool engaged under the deterministic scheduler), every block judged by TLC
 against the aggregate of the corresponding 1-D slices (Agg.tla)."""
+import itertools
+import json
 import random
 
+import numpy as np
+
 from .. import core
+from ..drivers.index import canonical
 from . import c03, c16
 from ..drivers import pool as pl
 
@@ -29,13 +34,123 @@ def pooled_blocks(env, tier, own=OWN, only=None):
                 c16.record_outputs(env, own, pr, outs)
 
 
+# ---- the scaffold as a specified algorithm (CubeAxes.tla) ---------------------------------------------------------
+AXES_FAMILY = [[[2]], [[3], []], [[], [2]], [[2, 3]], [[3, 2]], [[1, 4]], [[2], [3]], [[2, 1], [2]], [[], []], [[]],
+               [[2, 3], [2]], [[2], [], [2, 2]], [[3, 1], [2]], [[2], [2], [2]], [[4], [3]], [[1], [1]], [[1, 1]],
+               [[], [3, 2], []], [[2], [3, 2]]]
+
+
+def model_check_axes(chk, tier):
+    """L1: product()/slices1d/flattened labels/views as a state machine; sub-cubes fill their views cell by cell in any
+    interleaving; plus the witness (labels built the other way round) that must FAIL, so the invariants are not vacuous"""
+    for kind in ("ccube", "xcube"):
+        cfg = "MC_CubeAxes_%s%s.cfg" % (kind, "_quick" if tier == "quick" else "")
+        res = core.run_tlc("MC_CubeAxes.tla", cfg, timeout=1800)
+        chk.add_tlc("L1 %s (scaffold: one task per block, block holds its own slices, written once, any interleaving)" % cfg, res)
+        if res.rc != 0:
+            chk.violation("L1:CubeAxes:" + ",".join(res.violated + res.action_violated), res.out[-2500:], {"leg": "L1", "cfg": cfg})
+    for cfg, what in (("MC_CubeAxes_witness.cfg", "labels appended instead of prepended"),
+                      ("MC_CubeAxes_witness_shared.cfg", "a task's coordinates read back from an attribute all tasks share")):
+        w = core.run_tlc("MC_CubeAxes.tla", cfg, timeout=600)
+        if w.rc == 0:
+            raise core.MachineryFailure("CubeAxes witness (%s) was not rejected by TLC" % what)
+
+
+def _selfnaming(sh, n):
+    """dense array of shape (n,) + sh whose cell [r, k..] holds the row-major number of k"""
+    sh = tuple(sh)
+    ext = int(np.prod(sh)) if sh else 1
+    a = np.arange(ext, dtype=np.int64).reshape(sh) if sh else np.int64(0)
+    return np.broadcast_to(a, (n,) + sh).copy(), ext
+
+
+def _unravel(v, sh):
+    return [int(x) for x in np.unravel_index(int(v), tuple(sh))] if sh else []
+
+
+def scaffold_events(env, tier):
+    rnd = random.Random(core.SEED + 131)
+    fam = [json.loads(json.dumps(x)) for x in AXES_FAMILY]
+    for _ in range(12 if tier == "quick" else 150):
+        nd = rnd.choice([1, 2, 2, 3])
+        fam.append([[rnd.choice([1, 2, 2, 3, 4]) for _ in range(rnd.choice([0, 1, 1, 2]))] for _ in range(nd)])
+    events, meta = [], {}
+    tid = 0
+    for extras in fam:
+        for kind in ("ccube", "xcube"):
+            n = rnd.choice([1, 2, 3, 5])
+            dense, exts = zip(*[_selfnaming(sh, n) for sh in extras]) if extras else ((), ())
+            tid += 1
+            ev = {"tid": tid, "prop": "C13", "kind": kind, "extras": extras, "ishape": [int(e) for e in exts], "exc": False,
+                  "scaffold_shape": [], "shape": [], "scaffold_size": 0, "labels": [], "sels": [], "placed": []}
+            meta[tid] = {"cube": kind, "extras": extras, "rows": n}
+            try:
+                if kind == "ccube":
+                    dims = [canonical(env.iindex, d, 0) for d in dense]
+                    cube = env.ccube(dims, interacting_shape=tuple(exts))
+                    tasks = list(cube.product())
+                    ev["labels"] = [[[int(c) for c in t["coords"]] for t in task] for task in tasks]
+                    ev["sels"] = [[_unravel(np.asarray(t["data"].to_array()).ravel()[0], sh) for t, sh in zip(task, extras)]
+                                  for task in tasks]
+                else:
+                    cube = env.xcube([d.copy() for d in dense], interacting_shape=tuple(exts))
+                    tasks = list(cube.product)
+                    ev["labels"] = [[[int(c) for c in (t or ())] for t in task] for task in tasks]
+                    ev["sels"] = ev["labels"]
+                ev["scaffold_shape"] = [int(x) for x in cube.scaffold_shape]
+                ev["shape"] = [int(x) for x in cube.shape]
+                ev["scaffold_size"] = int(cube.scaffold_size)
+                if not extras:
+                    res = None
+                else:
+                    res = np.nan_to_num(np.asarray(cube.count(), dtype=float))
+                ssh = tuple(x for sh in extras for x in sh)
+                if res is not None and tuple(res.shape) == ssh + tuple(exts):
+                    for j in itertools.product(*[range(e) for e in ssh]):
+                        nz = np.argwhere(res[j] > 0)
+                        if len(nz) == 1 and res[j][tuple(nz[0])] == n:
+                            got = [_unravel(c, sh) for c, sh in zip(nz[0], extras)]
+                        else:
+                            got = [[-1] for _ in extras]
+                        ev["placed"].append([[int(x) for x in j], got])
+                elif res is not None:
+                    ev["shape"] = [int(x) for x in res.shape]       # the result's own shape is what the caller sees
+                else:
+                    ev["placed"].append([[], []])
+            except Exception as e:  # noqa
+                ev["exc"] = True
+                meta[tid]["exc"] = "%s: %s" % (type(e).__name__, str(e)[:200])
+            events.append(ev)
+    return events, meta
+
+
+def judge_axes(chk, events, meta, own=OWN):
+    res, verdicts = core.validate_batch("Trace_CubeAxes.tla", "Trace_CubeAxes.cfg", events, timeout=1200)
+    chk.add_tlc("L3 trace validation (Trace_CubeAxes: scaffold attributes, product(), placement of self-naming sub-cubes)", res)
+    for ev in events:
+        chk.traces += 1
+        for v in verdicts[ev["tid"]]:
+            if v == "ok":
+                continue
+            m = meta[ev["tid"]]
+            if v.startswith(own + ":"):
+                chk.violation("%s:scaffold:%s" % (m["cube"], v), "%s -> %s" % (json.dumps(m, default=str)[:500], v),
+                              {"meta": m, "event": ev, "clause": v, "spec": "Trace_CubeAxes"})
+            else:
+                chk.note("organisation-level clause %s on %s extras=%s" % (v, m["cube"], m["extras"]))
+    chk.extra["scaffold_events"] = len(events)
+
+
 def run(chk, tier):
     c03.model_check(chk, tier, OWN) if False else None
+    model_check_axes(chk, tier)
     env = c03.Env(core.SEED)
+    ev, meta = scaffold_events(env, tier)
+    judge_axes(chk, ev, meta)
     c03.GENS[OWN](env, tier)
     pooled_blocks(env, tier)
     c03.judge(chk, env.rec, OWN)
-    chk.rule = c03.RULE + "; plus pooled evaluations (pool sizes 2-8, also larger than the number of sub-cubes; seeded bytecode schedules) judged block by block"
+    chk.rule = c03.RULE + "; plus pooled evaluations (pool sizes 2-8, also larger than the number of sub-cubes; seeded bytecode schedules) judged block by block; plus the scaffold as a specified algorithm (CubeAxes.tla: L1 over every interleaving of the sub-cubes' deliveries, L3 on scaffold_shape / shape / product() and on where self-naming sub-cubes land)"
     chk.assumptions += c03.ASSUME
 
 
